@@ -238,26 +238,64 @@ def merge(t_toks, r_toks, flip=False):
         end = idx[i] if i < len(idx) else len(t_toks)
         return t_toks[start:end]
 
-    ops = sm.get_opcodes()
-    # Renamed identifiers: when /repo replaced identifier X by Y consistently (X no longer occurs in /repo's text, Y did
-    # not occur in the template's), the proof annotations follow the renaming.
-    ren, bad = {}, set()
-    for tag, i1, i2, j1, j2 in ops:
-        if tag == "replace" and i2 - i1 == j2 - j1:
-            for k in range(i2 - i1):
-                a, b = e0[i1 + k], r[j1 + k]
-                if a != b and re.match(r"^[A-Za-z_]\w*$", a) and re.match(r"^[A-Za-z_]\w*$", b):
-                    if ren.get(a, b) != b:
-                        bad.add(a)
-                    ren[a] = b
-    set_e0, set_r = set(e0), set(r)
-    ren = {a: b for a, b in ren.items() if a not in bad and a not in set_r and b not in set_e0 and a not in RUST_KEYWORDS and b not in RUST_KEYWORDS}
+    # Renamed identifiers: an identifier X of the template's executable text that no longer occurs in /repo's text, and an
+    # identifier Y of /repo's text that the template does not know, occurring equally often and in the same order of first
+    # occurrence, are taken as a renaming X -> Y if applying it makes the two texts strictly more alike. The renaming is
+    # applied to the whole template item, proof annotations included.
+    ident = re.compile(r"^[A-Za-z_]\w*$")
+
+    def first_occ(seq):
+        d, c = {}, {}
+        for i, x in enumerate(seq):
+            if ident.match(x) and x not in RUST_KEYWORDS:
+                d.setdefault(x, i)
+                c[x] = c.get(x, 0) + 1
+        return d, c
+    fo_t, cnt_t = first_occ(e0)
+    fo_r, cnt_r = first_occ(r)
+    # only identifiers that the template binds locally (let / let mut / parameter / closure parameter) can be renamed
+    bound = set()
+    for i, x in enumerate(e0):
+        if ident.match(x) and x not in RUST_KEYWORDS:
+            prev = e0[i - 1] if i > 0 else ""
+            nxt = e0[i + 1] if i + 1 < len(e0) else ""
+            if prev in ("let", "mut", "|", "ref") or (nxt == ":" and prev in ("(", ",", "|", "mut")) or (prev in ("(", ",") and nxt in (",", ")") and False):
+                bound.add(x)
+    gone = sorted((x for x in fo_t if x not in fo_r and x in bound), key=lambda x: fo_t[x])
+    new_ids = sorted((y for y in fo_r if y not in fo_t), key=lambda y: fo_r[y])
+    ghost_ids = {t.text for t in t_toks if t.ghost}
+    ren = {}
+    if gone and new_ids and len(gone) <= 40:
+        def n_diff(a, b):
+            m = difflib.SequenceMatcher(None, a, b, autojunk=False)
+            return sum(max(i2 - i1, j2 - j1) for tag, i1, i2, j1, j2 in m.get_opcodes() if tag != "equal")
+        base = n_diff(e0, r)
+        cur = list(e0)
+        used = set()
+        for x in gone:
+            best = None
+            for y in new_ids:
+                if y in used or cnt_r[y] != cnt_t[x] or y in ghost_ids:
+                    continue
+                trial = [y if z == x else z for z in cur]
+                nd = n_diff(trial, r)
+                if nd < base and (best is None or nd < best[0]):
+                    best = (nd, y, trial)
+            if best is not None:
+                base, y, cur = best
+                ren[x] = y
+                used.add(y)
     if ren:
         for t in t_toks:
-            if t.ghost and t.text in ren:
+            if t.text in ren:
                 t.text = ren[t.text]
+        e0 = [t_toks[k].text for k in idx]
+        sm = difflib.SequenceMatcher(None, e0, r, autojunk=False)
         for a, b in sorted(ren.items()):
             drift.append({"op": "rename", "template": a, "repo": b, "repo_line": 0, "ghost_dropped": ""})
+        if e0 == r:
+            return t_toks, drift
+    ops = sm.get_opcodes()
     # Pre-pass: a proof run sitting strictly inside a deleted / replaced span loses its place. If the statement it
     # precedes was MOVED (the same token sequence re-appears exactly once in inserted text), the run moves with it;
     # otherwise it is dropped and recorded (a failure of that item is then a lost anchor, not a refutation).
@@ -329,6 +367,11 @@ def merge(t_toks, r_toks, flip=False):
                 "ghost_moved_with_its_statement": n_moved,
             })
     out += ghost_before(len(idx))
+    # two word-like tokens must not be glued together when a token without leading trivia follows an inserted one
+    for k in range(1, len(out)):
+        a, b = out[k - 1].text, out[k].text
+        if out[k].pre == "" and a and b and (a[-1].isalnum() or a[-1] == "_") and (b[0].isalnum() or b[0] == "_"):
+            out[k].pre = " "
     return out, drift
 
 
